@@ -830,6 +830,11 @@ impl<Aux> Vm<'_, Aux> {
         #[cfg(feature = "verif-hooks")]
         crate::verif::emit(|| crate::verif::Event::RunEnd { ok: result.is_ok() });
         self.runtime_data.current_program = std::ptr::null();
+        // the run is over (successfully or not): nothing of it stays on the stacks, so the next run
+        // (whose arguments the host may push first) starts from the bottom again
+        self.runtime_data.value_stack.clear();
+        self.runtime_data.call_stack.clear();
+        self.runtime_data.open_upvalues = std::ptr::null_mut();
         result
     }
 
